@@ -652,7 +652,7 @@ EPS_CHOICES = [2.0 ** -10, 0.125, 0.25, 0.5, 1.0, 1.0 + 2.0 ** -10, 1.5, 2.0,
 
 
 @st.composite
-def geo_cases(draw, n_max=10):
+def geo_cases(draw, n_max=10, work=600):
     model = draw(st.sampled_from(["I", "II", "III"]))
     pick = draw(st.integers(0, 9))
     if pick < (7 if model == "III" else 2):
@@ -715,7 +715,7 @@ def geo_cases(draw, n_max=10):
         el = eligible_count(needs, eps * margin)
         per = len(edges) ** 2 / float(max(1, el))
         it = int(max(1, min(it, 40000 // max(1.0, per),
-                            2000 // max(1, len(edges) ** 2))))
+                            work // max(1, len(edges) ** 2))))
     case["eps"] = float(eps)
     case["iterations"] = int(it)
     case["seeds"] = draw(seeds_st(3))
@@ -867,7 +867,7 @@ SWAPS = [1.0, 0.5, 2.0, 0.0, 0.25, 1.0, 2.0, 5.0, 10.0]
 
 
 @st.composite
-def cross_rewire_cases(draw):
+def cross_rewire_cases(draw, work=600):
     if draw(st.integers(0, 4)) == 0:
         g, l1, l2 = draw(partitioned_graph(4, 12, False))
     else:
@@ -886,9 +886,9 @@ def cross_rewire_cases(draw):
             swaps = 1.0
     if ncl and swaps * ncl > 80:
         swaps = 80.0 / ncl
-    if ncl and swaps * ncl * ncl * ncl > 2000 and swaps * ncl >= 2:
+    if ncl and swaps * ncl * ncl * ncl > work and swaps * ncl >= 2:
         # bound swaps * ncl^2 (worst-case expected number of proposals)
-        swaps = max(1, 2000 // (ncl * ncl)) / float(ncl)
+        swaps = max(1, work // (ncl * ncl)) / float(ncl)
     el = xrewire_eligible(C) if ncl else 0
     if el == 0:
         swaps = 0.0
@@ -1147,7 +1147,9 @@ def _run(gen, oracle):
     loop does not terminate every failing evaluation costs the whole
     proposal budget, and the work unit must still finish in time."""
     def run(ctx):
-        return pbt.run_cases(ctx, gen(), oracle, ctx.n,
+        # bound on swaps * E^2 (worst-case expected number of proposals)
+        work = 600 if ctx.tier == "quick" else 4000
+        return pbt.run_cases(ctx, gen(work), oracle, ctx.n,
                              shrink_budget=80 if ctx.tier == "quick" else 400)
     return run
 
@@ -1158,13 +1160,13 @@ SUBCHECKS = [
     SubCheck("rewire", oracle_rewire, gen=rewire_cases,
              quick=(3, 250), thorough=(8, 3000)),
     SubCheck("geomodel", oracle_geomodel,
-             run=_run(lambda: geo_cases(), oracle_geomodel),
+             run=_run(lambda w: geo_cases(work=w), oracle_geomodel),
              quick=(4, 300), thorough=(8, 5000)),
     SubCheck("cross_rewire", oracle_cross_rewire,
-             run=_run(lambda: cross_rewire_cases(), oracle_cross_rewire),
+             run=_run(lambda w: cross_rewire_cases(work=w), oracle_cross_rewire),
              quick=(3, 250), thorough=(8, 3000)),
     SubCheck("cross_set", oracle_cross_set,
-             run=_run(lambda: cross_set_cases(), oracle_cross_set),
+             run=_run(lambda w: cross_set_cases(), oracle_cross_set),
              quick=(3, 250), thorough=(8, 3000)),
     SubCheck("by_distance", oracle_by_distance, gen=by_distance_cases,
              quick=(2, 200), thorough=(8, 1500)),
